@@ -264,6 +264,11 @@ func (r *regulator) allocateTables() error {
 	//for len(r.waitingQueue) >= r.minInitialPlayers {
 	for waterLevel >= r.minInitialPlayers && r.tableCount < requiredTables {
 
+		// A table never holds more than its capacity
+		if waterLevel > r.maxPlayersPerTable {
+			waterLevel = r.maxPlayersPerTable
+		}
+
 		requiredPlayers := waterLevel
 
 		// the rest of players for the last table
